@@ -108,7 +108,13 @@ static inline void enc_ghost_post(const struct aws_byte_buf *b) {
 /* the NULL/0 view makes the loop compare two null pointers with '<' (formally undefined, flagged by CBMC's pointer checks
  * although nothing is dereferenced; every later obligation on that path is then reported UNKNOWN): that single input is
  * exercised natively (unit native_roundtrips) */
+#ifdef VERIF_ENC_HUGE
+/* a length whose triple does not fit in size_t: must be refused before a byte is read (the view is left unbacked: no
+ * object of that size exists, any read through it is flagged) */
+#define ENC_CURSOR_REQ(c) (__CPROVER_is_fresh((c), sizeof(*(c))) && (c)->len > SIZE_MAX / 3)
+#else
 #define ENC_CURSOR_REQ(c) (__CPROVER_is_fresh((c), sizeof(*(c))) && __CPROVER_is_fresh((c)->ptr, (c)->len))
+#endif
 #endif
 int aws_byte_buf_append_encoding_uri_path(struct aws_byte_buf *buffer, const struct aws_byte_cursor *cursor)
 ENCODE_CONTRACT(SPEC_PATH_KEEP)
